@@ -47,6 +47,19 @@ class Ev:
         return f"T{self.tid}.{self.idx}:{self.kind}{'' if self.loc is None else '[' + str(self.loc) + ']'}{self.order or ''}{(' ' + self.label) if self.label else ''}"
 
 
+def _ty(v):
+    return "bool" if isinstance(v, B) else v.ty
+
+
+def _dom(it, a, v):
+    """optional value-domain invariant of a location (it.env['load_domain'](it, loc, value) adds assumptions that every
+    write of the client program satisfies, so that thread-local exploration does not fork on unreachable values)"""
+    d = it.env.get("load_domain")
+    if d:
+        d(it, a.meta["loc"], v)
+    return v
+
+
 def ordering_name(v):
     if isinstance(v, Agg) and v.variant:
         return v.variant
@@ -84,6 +97,7 @@ def install_models(M):
     def a_new(it, cal, args):
         a = Agg("Atomic", [args[0]], meta={"loc": nloc[0]})
         it.env.setdefault("locs", []).append((nloc[0], args[0]))
+        it.env.setdefault("loc_objs", []).append((nloc[0], a))
         nloc[0] += 1
         return a
 
@@ -97,7 +111,7 @@ def install_models(M):
         if r is None:
             return a.fields[0]
         init = a.fields[0]
-        v = it.fresh(f"t{r.tid}r", init.ty)
+        v = _dom(it, a, it.fresh(f"t{r.tid}r", _ty(init)))
         o = ordering_name(args[1])
         r.add("R", a.meta["loc"], o, rval=v)
         return v
@@ -119,7 +133,7 @@ def install_models(M):
             old = a.fields[0]
             a.fields[0] = args[1] if op is None else it.binop(op, old, args[1])
             return old
-        old = it.fresh(f"t{r.tid}u", a.fields[0].ty)
+        old = _dom(it, a, it.fresh(f"t{r.tid}u", _ty(a.fields[0])))
         new = args[1] if op is None else it.binop(op, old, args[1])
         r.add("U", a.meta["loc"], ordering_name(args[2]), rval=old, wval=new)
         return old
@@ -133,7 +147,7 @@ def install_models(M):
                 a.fields[0] = args[2]
                 return m_ok(old)
             return m_err(old)
-        old = it.fresh(f"t{r.tid}c", a.fields[0].ty)
+        old = _dom(it, a, it.fresh(f"t{r.tid}c", _ty(a.fields[0])))
         succ_o, fail_o = ordering_name(args[3]), ordering_name(args[4])
         eq = it.binop("Eq", old, args[1])
         weak = cal.method == "compare_exchange_weak"
@@ -155,7 +169,7 @@ def install_models(M):
 
     M.extra.update({
         "Atomic::new": a_new, "AtomicBool::new": a_new, "AtomicUsize::new": a_new, "AtomicU64::new": a_new, "AtomicI64::new": a_new,
-        "AtomicU32::new": a_new, "Atomic::load": a_load, "Atomic::store": a_store, "Atomic::fetch_add": a_rmw, "Atomic::fetch_sub": a_rmw,
+        "AtomicU32::new": a_new, "AtomicIsize::new": a_new, "Atomic::load": a_load, "Atomic::store": a_store, "Atomic::fetch_add": a_rmw, "Atomic::fetch_sub": a_rmw,
         "Atomic::fetch_or": a_rmw, "Atomic::fetch_and": a_rmw, "Atomic::fetch_xor": a_rmw, "Atomic::swap": a_rmw,
         "Atomic::compare_exchange": a_cas, "Atomic::compare_exchange_weak": a_cas, "fence": a_fence, "std::sync::atomic::fence": a_fence,
     })
@@ -170,6 +184,8 @@ def collect_thread(program, models_factory, tid, build_shared, thread_body, loop
     def scen(it):
         rec = ThreadRecorder(it, tid, None)
         shared = build_shared(it)
+        # the initial value of a location is its value at the end of the (unrecorded, sequential) set-up
+        it.env["locs"] = [(loc, a.fields[0]) for (loc, a) in it.env.get("loc_objs", [])]
         rec.active = True
         out = thread_body(it, shared)
         rec.active = False
@@ -423,24 +439,32 @@ def _val(v):
     return v
 
 
-def check_program(threads_paths, init_locs, violation_fn, stats=None, max_combos=5000):
+def check_program(threads_paths, init_locs, violation_fn, stats=None, max_combos=5000, shard=None, constrain_fn=None):
     """threads_paths: list (per thread) of lists of path dicts.  violation_fn(execution, combo) -> z3 Bool or None.
+    `constrain_fn(execution, combo)` adds scenario constraints that also apply to combinations with an aborted thread;
+    `shard=(i, n)` restricts the run to every n-th combination (parallel runs).
     Returns (result, info): 'unsat' for all combos, or ('sat', witness)."""
     t0 = time.time()
     ncombo = nq = 0
-    for combo in itertools.product(*threads_paths):
+    for ci, combo in enumerate(itertools.product(*threads_paths)):
+        if shard and ci % shard[1] != shard[0]:
+            continue
         ncombo += 1
         if ncombo > max_combos:
             raise Unsupported("too many thread-path combinations")
         if any(p.get("aborted") for p in combo):
             aborted = [p for p in combo if p.get("aborted")]
             ex = Execution(list(combo), init_locs)
+            if constrain_fn:
+                constrain_fn(ex, combo)
             nq += 1
             if ex.s.check() == z3.sat:
                 return "sat", dict(kind="thread-aborted", detail=str(aborted[0]["out"]), events=ex.describe(ex.s.model()), combos=ncombo, queries=nq,
                                    solver_s=time.time() - t0)
             continue
         ex = Execution(list(combo), init_locs)
+        if constrain_fn:
+            constrain_fn(ex, combo)
         viol = violation_fn(ex, combo)
         if viol is None:
             continue
